@@ -153,7 +153,7 @@ def gen_probes(tier):
                     for fname, body, cpp20 in fams:
                         if fname != "mixed_ops" and tier == "quick" and rnd.random() < 0.5:
                             continue
-                        probes.append(dict(base, id=pid, form=fname, model=M_mixed, expect="accept" if M_mixed else "reject", dedup_key=(rs, c, fname), cpp20=cpp20,
+                        probes.append(dict(base, id=pid, form=fname, model=M_mixed, expect="accept" if M_mixed else "reject", dedup_key=(rs, c), cpp20=cpp20,  # (the families share the conversion whose static_assert fires once per TU)
                                            text=f"void vf_p{pid}({q1} a, {q2} b) {{ {body} }}"))
                         pid += 1
                 if M and REPS[r2][2] and REPS[r1][2] and ratio != "irr":
